@@ -144,7 +144,7 @@ def plan(prop, tier, seed):
         add(['hyb2', 'hyb2p', 'ev2', 'evloop', 'tb_ev', 'weak2', 'weakonly', 'grp_out', 'grp_in', 'grp_sib', 'tb2', 'tb_hy'] + multi,
             K=2 if q else 3, lazies=(True, False))
         add(['multi_shift', 'multi_shift_rev'], K=3, lazies=(True,))
-        add(['chain3ev', 'chain3', 'shortcut3', 'shortcut3_sym'] if q else three, K=2, lazies=(True, False))
+        add(['chain3ev', 'chain3', 'shortcut3', 'shortcut3_sym'] if q else three, K=2, lazies=(True,) if q else (True, False))
         add(['hyb2', 'ev2', 'tb_ev'], K=2 if q else 3, until='symnc', caches=(False,))
         add(['hyb2'] if q else ['hyb2', 'ev2'], K=2 if q else 3, extra={'future_outputs': True})
         if not q:
@@ -162,26 +162,31 @@ def plan(prop, tier, seed):
         if not q:
             add(['tb2', 'hyb2', 'tb_ev'], K=2, D=1, lazies=(True,))
     # generated families (vk.topo.generated / generated_multi): every two-simulator topology, and every pair of parallel
-    # connections with different delays.  thorough: each property explores a rotating quarter; quick: a rotating 1/32 slice.
+    # connections with different delays.  thorough: each property explores a rotating eighth; quick: a rotating 1/48 slice.
     # Each selected topology is explored completely (the seed rotates coverage, it does not sample behaviours).
     gen = T.generated() + T.generated_multi()
     if q:
         gen = [t for t in gen if 'weak' not in t['tags']]     # same-time loops explode; curated ones and the thorough tier cover them
-    mod = 4 if not q else 48
+    mod = 8 if not q else 48
     off = (int(prop[1:]) * 7 + seed) % mod
     for i, t in enumerate(gen):
         if i % mod != off:
             continue
         lz = (True,) if (prop == 'C10' or q) else (True, False)
-        for c in cfgs(t, tier, K=2, masks='all' if not q else 'extremes', lazies=lz):
+        # two hybrid simulators feeding each other: thousands of paths when both answer asynchronously; split over the workers
+        loop2 = all(v not in ('tb', 'time-based') for v in t['types'].values()) and len({(e['src'], e['dst']) for e in t['edges']}) > 1
+        for c in cfgs(t, tier, K=2, masks='all' if (not q or loop2) else 'extremes', lazies=lz):
             c['rules'] = rules
-            jobs.append(job(prop, t, c, budget_s=240 if not q else 60))
+            heavy = loop2 and len(c['sync']) < len(t['types'])
+            if q and loop2 and not c['sync']:
+                continue     # quick: these loops with one asynchronous simulator at a time; both asynchronous in the thorough tier
+            jobs.append(job(prop, t, c, budget_s=(300 if not q else 90), split_depth=(16 if heavy else None)))
     if not q:
-        # generated three-simulator family: a rotating 1/16 per property, transport-mode extremes
+        # generated three-simulator family: a rotating 1/32 per property, transport-mode extremes
         g3 = T.generated3()
-        off3 = (int(prop[1:]) * 5 + seed) % 16
+        off3 = (int(prop[1:]) * 5 + seed) % 32
         for i, t in enumerate(g3):
-            if i % 16 != off3:
+            if i % 32 != off3:
                 continue
             lz = (True,) if prop == 'C10' else (True, False)
             for c in cfgs(t, tier, K=2, masks='extremes', lazies=lz):
